@@ -23,6 +23,38 @@ fn run_plain(p: &RedeemNode, env: &Env) -> J {
     }
 }
 
+/// are the program's arrows the principal ones of the program itself?  (rebuilt in a fresh context with only the
+/// root arrow given): true / false / "unknown: ..."
+pub fn principal_of(pruned: &RedeemNode) -> J {
+    {
+        let (d, t, a, _) = describe(&pruned);
+        // from the description format back to the construction format
+        fn bits_of_val(v: &J, out: &mut Vec<u8>) {
+            match v[0].as_str().unwrap() {
+                "bits" => out.extend(v[2].as_array().unwrap().iter().map(|b| b.as_u64().unwrap() as u8)),
+                "L" => { if v[1][0] == "u" { out.push(0) } else { bits_of_val(&v[1], out) } }
+                "R" => { if v[1][0] == "u" { out.push(1) } else { bits_of_val(&v[1], out) } }
+                "P" => { bits_of_val(&v[1], out); bits_of_val(&v[2], out); }
+                _ => {}
+            }
+        }
+        let d = json!(d.as_array().unwrap().iter().zip(a.as_array().unwrap()).map(|(nd, ax)| match nd[0].as_str().unwrap() {
+            "leaf" => json!(["jet", 0, 0, nd[5]]),
+            "word" => { let mut b = vec![]; bits_of_val(ax, &mut b); json!(["word", 0, 0, b]) }
+            _ => nd.clone(),
+        }).collect::<Vec<J>>());
+        let n = d.as_array().unwrap().len();
+        let mut tyn = vec![J::Null; n];
+        tyn[n - 1] = t[n - 1].clone();
+        let aux0 = json!(vec![json!(["none"]); n]);
+        let fresh: Result<Vec<J>, String> = guarded(|| types::Context::with_context(|ctx| {
+            let (_, _, built) = build_typed(&ctx, Family::Elements, &d, &json!(tyn), &aux0)?;
+            Ok(built.iter().map(|b| { let a = b.arrow().finalize().unwrap(); json!([ty_cz(&a.source), ty_cz(&a.target)]) }).collect())
+        })).unwrap_or_else(|p| Err(format!("panic: {}", p)));
+        match fresh { Ok(f) => json!(json!(f) == t), Err(e) => json!(format!("unknown: {}", e)) }
+    }
+}
+
 /// everything C08 talks about for one redeem program
 pub fn prune_report(redeem: &Arc<RedeemNode>, env: &Env) -> J {
     let first = run_plain(redeem, env);
@@ -52,34 +84,7 @@ pub fn prune_report(redeem: &Arc<RedeemNode>, env: &Env) -> J {
         }
     }
     rec["witness_typed"] = json!(wit_ok);
-    // are the pruned program's arrows the principal ones of the pruned program itself?  (rebuilt in a fresh context)
-    rec["principal"] = {
-        let (d, t, a, _) = describe(&pruned);
-        // from the description format back to the construction format
-        fn bits_of_val(v: &J, out: &mut Vec<u8>) {
-            match v[0].as_str().unwrap() {
-                "bits" => out.extend(v[2].as_array().unwrap().iter().map(|b| b.as_u64().unwrap() as u8)),
-                "L" => { if v[1][0] == "u" { out.push(0) } else { bits_of_val(&v[1], out) } }
-                "R" => { if v[1][0] == "u" { out.push(1) } else { bits_of_val(&v[1], out) } }
-                "P" => { bits_of_val(&v[1], out); bits_of_val(&v[2], out); }
-                _ => {}
-            }
-        }
-        let d = json!(d.as_array().unwrap().iter().zip(a.as_array().unwrap()).map(|(nd, ax)| match nd[0].as_str().unwrap() {
-            "leaf" => json!(["jet", 0, 0, nd[5]]),
-            "word" => { let mut b = vec![]; bits_of_val(ax, &mut b); json!(["word", 0, 0, b]) }
-            _ => nd.clone(),
-        }).collect::<Vec<J>>());
-        let n = d.as_array().unwrap().len();
-        let mut tyn = vec![J::Null; n];
-        tyn[n - 1] = t[n - 1].clone();
-        let aux0 = json!(vec![json!(["none"]); n]);
-        let fresh: Result<Vec<J>, String> = guarded(|| types::Context::with_context(|ctx| {
-            let (_, _, built) = build_typed(&ctx, Family::Elements, &d, &json!(tyn), &aux0)?;
-            Ok(built.iter().map(|b| { let a = b.arrow().finalize().unwrap(); json!([ty_cz(&a.source), ty_cz(&a.target)]) }).collect())
-        })).unwrap_or_else(|p| Err(format!("panic: {}", p)));
-        match fresh { Ok(f) => json!(json!(f) == t), Err(e) => json!(format!("unknown: {}", e)) }
-    };
+    rec["principal"] = principal_of(&pruned);
     let (prog, wit) = pruned.to_vec_with_witness();
     rec["bytes"] = json!([prog.len(), wit.len()]);
     // pruning again changes nothing
